@@ -51,6 +51,9 @@ pub enum SStep {
     Sleep(u64),
     /// the wall clock is stepped by this many seconds (forwards or backwards); the monotonic clock is not
     ClockStep(i64),
+    /// from now on this many milliseconds of simulated time pass with every system call (a slow or
+    /// heavily loaded machine): time also passes *inside* one library call
+    Pace(u64),
 }
 
 #[derive(Clone, Debug)]
@@ -113,6 +116,7 @@ impl SStep {
             SStep::SpuriousIn(c) => a(vec![json::s("spurious_in"), json::u(*c)]),
             SStep::Sleep(secs) => a(vec![json::s("sleep"), json::u(*secs as usize)]),
             SStep::ClockStep(secs) => a(vec![json::s("clock_step"), json::i(*secs)]),
+            SStep::Pace(ms) => a(vec![json::s("pace"), json::u(*ms as usize)]),
         }
     }
     pub fn from_json(j: &J) -> Result<SStep, String> {
@@ -141,6 +145,7 @@ impl SStep {
             "fork" => SStep::Fork,
             "spurious_in" => SStep::SpuriousIn(n(1)?),
             "sleep" => SStep::Sleep(n(1)? as u64),
+            "pace" => SStep::Pace(n(1)? as u64),
             "clock_step" => SStep::ClockStep(a.get(1).and_then(|x| x.int()).ok_or("secs")? as i64),
             _ => return Err(format!("unknown step {}", k)),
         })
@@ -894,6 +899,12 @@ impl ServerSim {
                 simkernel::rawsys::clock::advance(secs.saturating_mul(1_000_000_000));
                 st.fault("F-time-passes");
                 self.sig.u(17);
+                true
+            }
+            SStep::Pace(ms) => {
+                simkernel::rawsys::clock::set_tick(ms.saturating_mul(1_000_000));
+                st.fault("F-slow-machine");
+                self.sig.u(19);
                 true
             }
             SStep::ClockStep(secs) => {
